@@ -24,6 +24,10 @@ EXTRA = [
     ('BVEvalExtend', '(set-logic ALL)\n(declare-const v (_ BitVec 3))\n(assert (= ((_ sign_extend 2) #b0) v))\n(assert (= ((_ sign_extend 2) #b1) v))\n(assert (= ((_ sign_extend 2) (_ bv0 1)) v))\n(assert (= ((_ zero_extend 2) #b1) v))\n(check-sat)\n'),
 ]
 # name capture: the body binds a symbol that is free in the actual argument (known finding F19 if it reproduces)
+# a quantified variable elsewhere in the input has the name of a declared constant but another width: the width is looked up by
+# bare name (known finding F52)
+SHADOW = ('BVExtractZeroExtend', '(set-logic ALL)\n(declare-const x (_ BitVec 8))\n(assert (= ((_ extract 5 2) ((_ zero_extend 4) x)) #b0000))\n'
+          '(assert (forall ((x (_ BitVec 4))) (= x x)))\n(check-sat)\n')
 CAPTURE = ('InlineDefinedFuns', '(set-logic ALL)\n(declare-const y Int)\n(define-fun g ((p Int)) Bool (exists ((y Int)) (> y p)))\n(assert (g y))\n(check-sat)\n')
 
 
@@ -115,7 +119,7 @@ def run(ctx):
     model = common.Model()
     rng = ctx.rng
     per = 40 if ctx.thorough else 7
-    texts = list(EXTRA) + [CAPTURE]
+    texts = list(EXTRA) + [CAPTURE, SHADOW]
     for cls in IDENTITY:
         for _ in range(per):
             r = instances.make(rng, cls)
@@ -165,7 +169,7 @@ def run(ctx):
             scope = scope_of(exprs, node, impl)
             if any(so is None for _, so in scope):
                 continue
-            capture = (cls, text) == CAPTURE
+            capture = {CAPTURE: 'F19-inlining-captures-bound-symbol', SHADOW: 'F52-width-lookup-ignores-scopes'}.get((cls, text))
             queries.append((decls, scope, a, b))
             qmeta.append((cls, text, a, b, capture))
             if not any(isinstance(s, tuple) and s and s[0] in ('declare-datatypes', 'define-funs-rec') for s in shapes):
@@ -265,7 +269,7 @@ def run(ctx):
             continue
         evaluated += 1
         if va != vb:
-            ctx.violation('impl-violation', finding_key='F19-inlining-captures-bound-symbol' if capture else None, input=text, mutator=cls,
+            ctx.violation('impl-violation', finding_key=capture or None, input=text, mutator=cls,
                           term=smtgen.render_shape(a), replacement=smtgen.render_shape(b),
                           observed=f'values differ under an assignment (Spec/Semantics.eval): {va} vs {vb}', expected='same value')
     ctx.count('pairs evaluated by the extracted evaluator', evaluated)
@@ -275,7 +279,7 @@ def run(ctx):
         first = r.split('\n')[0] if r else ''
         ctx.count('z3 ' + (first if first in ('unsat', 'sat', 'unknown', 'timeout') else 'error'))
         if first == 'sat':
-            ctx.violation('impl-violation', finding_key='F19-inlining-captures-bound-symbol' if capture else None,
+            ctx.violation('impl-violation', finding_key=capture or None,
                           input=text, mutator=cls, term=smtgen.render_shape(a), replacement=smtgen.render_shape(b),
                           observed='the replacement denotes a different value (z3 finds an assignment that distinguishes them)',
                           expected='same value under every assignment', how_to_replay='./check C17 --replay <file>')
